@@ -6,6 +6,7 @@ mod builders;
 mod c02;
 mod common;
 mod corpus;
+mod misc;
 mod parsers;
 mod uris;
 
@@ -39,6 +40,15 @@ fn main() {
         "c10" => builders::run_c10(&args, &tier, seed),
         "c13" => builders::run_c13(&args, &tier, seed),
         "c14" => builders::run_c14(&args, &tier, seed),
+        "c08" => misc::run_c08(&args, &tier, seed),
+        "c15" => misc::run_c15(&args, &tier, seed),
+        "c16" => misc::run_c16(&args, &tier, seed),
+        "c17" => misc::run_c17(&args, &tier, seed),
+        "c19" => misc::run_c19(&args, &tier, seed),
+        "cost" => {
+            misc::run_cost(&args);
+            return;
+        }
         "c02w" => c02::run_worker(&args, &tier, seed),
         "c02bomb" => c02::run_bomb(&args, &tier, seed),
         _ => {
